@@ -150,6 +150,9 @@ func RunTotal(cfg *TotalConfig) (*Report, error) {
 			var rootDocs [][]byte
 			var labels []string
 			addDoc := func(b []byte, l string) { rootDocs = append(rootDocs, b); labels = append(labels, l) }
+			for _, d := range c.Docs {
+				addDoc(jsonx.Marshal(d.V), "given")
+			}
 			for _, v := range valids {
 				addDoc(jsonx.Marshal(v), "valid")
 			}
